@@ -61,6 +61,7 @@ def fams_c19(tier, seed):
     if tier == "quick":
         return [
             Family("drain5", "exh", "DyvAc", "0,1,2", depth=5, configs=("w:s", "l:a")),
+            Family("drainP6", "exh", "PSDv", "0,1,2", depth=6, configs=("w:s", "l:a")),
             Family("drain4", "exh", "DSTyvABhc", "0,1,u", depth=4, configs=("b:a", "z:s")),
             Family("rand-drain", "rand", "DSTYyvABMhc", "0,1,2,u", length=40, n=3000, configs=("w:a", "l:s")),
         ]
@@ -105,6 +106,7 @@ def fams_ledger(tier, seed):
             Family("full3", "exh", FULL, "0,1,2,u", depth=3, configs=("w:s", "l:a", "z:a", "b:s")),
             Family("async5", "exh", "SyvABMc", "0,1", depth=5, configs=("l:a", "b:s")),
             Family("timed4", "exh", "TUyvAc", "0,1", depth=4, configs=("w:s", "l:a", "z:s")),
+            Family("pendingPQ5", "exh", "PQyvdc", "0,1", depth=5, configs=("z:s", "l:a", "b:a")),
             Family("rand40", "rand", FULL + "w", "0,1,2,u", length=40, n=3000, configs=("w:a", "z:s", "l:s", "b:a")),
         ]
     return fams_c18("thorough", seed)
@@ -142,11 +144,14 @@ def fams_c02(tier, seed):
         return [
             Family("order5", "exh", "SyvAdc", "1,2", depth=5, configs=("w:s", "l:a")),
             Family("cancel6", "exh", "Avd", "0,1", depth=6, configs=("w:a",)),
+            Family("pending6", "exh", "PSvd", "0,1,2", depth=6, configs=("w:s", "l:a")),
             Family("rand-order", "rand", "STYyRUvdABMc", "0,1,2,u", length=40, n=3000, configs=("w:s", "l:a", "b:s")),
         ]
     return [
         Family("order6", "exh", "SyvAdc", "1,2", depth=6, configs=("w:s", "l:a", "b:a")),
         Family("cancel7", "exh", "Avd", "0,1,2", depth=7, configs=("w:a", "l:s")),
+        Family("pending8", "exh", "PSvd", "0,1,2", depth=8, configs=("w:s", "l:a", "b:s")),
+        Family("pendingQ7", "exh", "PQyvd", "0,1", depth=7, configs=("w:s", "l:a")),
         Family("rand-order", "rand", "STYyRUvdABMc", "0,1,2,u", length=60, n=40000, configs=ALLCFG),
     ]
 
@@ -197,12 +202,94 @@ def simple(pid, level, fams, conc, relevant, expl, extra_files=(), corpus=(), co
                 assumptions=COMMON_ASSUME, explanation=expl)
 
 
+TIMED_MACROS = {"sendt": 6, "sendot": 6, "recvt": 6, "send": 2, "recv": 2, "try": 1, "tryr": 1, "close": 1, "drops": 1, "dropr": 1, "asend1": 1, "arecv1": 1}
+TRY_MACROS = {"try": 5, "tryrt": 5, "tryr": 5, "tryrrt": 5, "drain": 3, "send": 2, "recv": 2, "sendt": 1, "asend1": 2, "arecv1": 2, "len": 1}
+DROP_MACROS = {"asenddrop": 6, "arecvdrop": 6, "asend1": 2, "arecv1": 2, "asend2": 1, "arecv2": 1, "stream3": 2, "send": 2, "recv": 2, "try": 2, "tryr": 2, "close": 1, "drops": 1, "dropr": 1}
+POLL_MACROS = {"asend2": 4, "asend3": 4, "arecv2": 4, "arecv3": 4, "stream3": 4, "asend1": 1, "arecv1": 1, "send": 2, "recv": 2, "try": 3, "tryr": 3, "close": 1}
+FREEZE = ("random", "uniform", "pct:3", "after:lock:1", "after:lock:2", "after:guard:1", "after:guard:2", "after:guard:3", "after:unlock:1", "after:pwrite:1", "after:st:1")
+
+
+def fams_c13(tier, seed):
+    if tier == "quick":
+        return [
+            Family("timed5", "exh", "TUyvAc", "0,1", depth=5, configs=("w:s", "l:a")),
+            Family("timedP5", "exh", "PQTUv", "0,1", depth=5, configs=("b:s", "z:a")),
+            Family("rand-timed", "rand", "STYyRUvdABMhc", "0,1,2,u", length=40, n=3000, configs=("w:s", "l:a")),
+        ]
+    return [
+        Family("timed6", "exh", "TUyvAc", "0,1,2", depth=6, configs=("w:s", "l:a", "z:s")),
+        Family("timedP6", "exh", "PQTUv", "0,1", depth=6, configs=("b:s", "z:a", "w:a")),
+        Family("rand-timed", "rand", "STYyRUvdABMhc", "0,1,2,u", length=60, n=40000, configs=ALLCFG),
+    ]
+
+
+def fams_c14(tier, seed):
+    if tier == "quick":
+        return [
+            Family("try4", "exh", "YVDSRo", "0,1,2,u", depth=4, configs=("w:s", "l:a")),
+            Family("tryP5", "exh", "PQYVd", "0,1", depth=5, configs=("b:a", "z:s")),
+            Family("rand-try", "rand", "SYRVDABMhco", "0,1,2,u", length=40, n=3000, configs=("w:a", "l:s")),
+        ]
+    return [
+        Family("try5", "exh", "YVDSRo", "0,1,2,u", depth=5, configs=("w:s", "l:a", "z:a")),
+        Family("tryP6", "exh", "PQYVd", "0,1,2", depth=6, configs=("b:a", "z:s", "w:s")),
+        Family("rand-try", "rand", "SYRVDABMhco", "0,1,2,u", length=60, n=40000, configs=ALLCFG),
+    ]
+
+
+def fams_c15(tier, seed):
+    if tier == "quick":
+        return [
+            Family("futdrop5", "exh", "SyvABMc", "0,1", depth=5, configs=("l:a", "b:s", "z:s")),
+            Family("futdropPQ6", "exh", "PQyvdc", "0,1", depth=6, configs=("w:s", "l:a")),
+            Family("rand-futdrop", "rand", "SyvdABMhcPQ", "0,1,2,u", length=40, n=3000, configs=("w:a", "z:s", "l:s")),
+        ]
+    return [
+        Family("futdrop6", "exh", "SyvABMc", "0,1,2", depth=6, configs=("l:a", "b:s", "z:s", "w:a")),
+        Family("futdropPQ7", "exh", "PQyvdc", "0,1", depth=7, configs=("w:s", "l:a")),
+        Family("rand-futdrop", "rand", "SyvdABMhcPQ", "0,1,2,u", length=60, n=40000, configs=ALLCFG),
+    ]
+
+
+def fams_c16(tier, seed):
+    if tier == "quick":
+        return [
+            Family("poll5", "exh", "ABwyv", "0,1", depth=5, configs=("w:a", "l:s")),
+            Family("stream6", "exh", "Mwyvc", "0,1", depth=6, configs=("w:s", "b:a")),
+            Family("rand-poll", "rand", "SyvABMwcPQ", "0,1,2,u", length=40, n=3000, configs=("w:a", "l:s")),
+        ]
+    return [
+        Family("poll6", "exh", "ABwyv", "0,1", depth=6, configs=("w:a", "l:s", "z:a")),
+        Family("stream7", "exh", "Mwyvc", "0,1,u", depth=7, configs=("w:s", "b:a")),
+        Family("rand-poll", "rand", "SyvABMwcPQ", "0,1,2,u", length=60, n=40000, configs=ALLCFG),
+    ]
+
+
 PROPS = {
+    "C13": simple("C13", "proof", fams_c13,
+                  conc_prof("timed", TIMED_MACROS, ["stuck"], caps=("0", "1", "2"),
+                            strategies=("random", "uniform", "pct:3", "after:now:1", "after:now:3", "after:now:6", "after:unlock:2", "after:pread:1", "after:pwrite:1", "after:st:1")),
+                  rel_ops("sendt", "sendot", "recvt"),
+                  "Timeout only from the expiry steps; expiry of a still-listed waiter = Timeout with the value back/destroyed once and never delivered later, waiter gone and dead, others keep order; expiry of a claimed waiter keeps waiting; completion reports the decided outcome; trichotomy",
+                  corpus=["D2_send_option_timeout_double_drop.prog"]),
+    "C14": simple("C14", "proof", fams_c14,
+                  conc_prof("nonblocking", TRY_MACROS, ["nonblocking", "realtime", "mutex"], oracles=("ledger", "lifetime"), strategies=FREEZE),
+                  rel_ops("try", "tryr", "drain"),
+                  "try_*/drain never answer blocked nor register; refused try_send leaves the channel unchanged up to the stale flag; success iff the value moved; try_recv value iff taken; realtime = one try_lock step (MutexM) used exactly by the *_realtime entry points"),
+    "C15": simple("C15", "proof", fams_c15,
+                  conc_prof("future-drop", DROP_MACROS, ["stuck"], strategies=STRATS),
+                  rel_tokens(r"\bv\d+| d\d+| w\d+|leak|dbl|pending|panic"),
+                  "drop of a send/receive future in every state: value destroyed once / delivered once / nothing; claimed-not-finalised: Drop waits; afterwards dead, out of the wait list (erase keeps the others' order), never touched again"),
+    "C16": simple("C16", "proof", fams_c16,
+                  conc_prof("polling", POLL_MACROS, ["wake", "stuck"], strategies=STRATS),
+                  rel_tokens(r"\bv\d+| w\d+|pending|panic|end|err:\w+"),
+                  "spurious poll = Pending + waker refreshed, nothing else; every Pending leaves the supplied waker registered; only the future's own polls change its waker and finalize wakes exactly it; no invented value; finished future panics, ended stream keeps ending; listed stream future is re-armed; negative theorems for D3/D4",
+                  corpus=["D5_recv_future_waker_race.prog"], corpus_mon=["wake"]),
     "C02": simple("C02", "proof", fams_c02, conc_prof("fifo", FIFO_MACROS, ["fifo", "stuck"], caps=("0", "1", "2")),
                   rel_tokens(r"\bv\d+|drained \d+ \[[\d,]*\]"),
                   "Fifo invariant (accepted minus withdrawn = delivered ++ buffer ++ blocked senders, in order) proved inductive over every step; corollaries: delivery respects acceptance order, nothing overtakes, one drain returns acceptance order"),
     "C08": simple("C08", "proof", fams_c08, conc_prof("capacity", MIXED, ["capacity", "stuck"]),
-                  rel_ops("send", "sendt", "sendot", "try", "polls", "len", "isfull", "isempty", "capacity", "isbounded"),
+                  rel_ops("send", "sendt", "sendot", "try", "polls", "len", "isfull", "isempty", "capacity", "isbounded", "recv", "recvt", "tryr", "pollr", "drain"),
                   "buffer length within capacity in every reachable state; refusal iff no waiting receiver and no room; unbounded never refuses/waits; capacity 0 never buffers; counting identity accepted-not-blocked minus delivered = buffer length"),
     "C10": simple("C10", "proof", fams_c10, conc_prof("close", CLOSE_MACROS, ["close", "stuck"]),
                   rel_ops("close", "isclosed", "scount", "rcount", "send", "sendt", "sendot", "try", "recv", "recvt", "tryr", "drain", "polls", "pollr"),
